@@ -24,10 +24,29 @@ Definition pc_update (pc : pcounter) (parse : list str) : result pcounter :=
              pc_counters := bump_all (pc_counters pc) parse;
              pc_nparses := (pc_nparses pc + 1)%Z |}.
 
+(* min(c.items(), key=lambda x: (-x[1], x[0]))[0]: most frequent, ties to the
+   smallest string (code point order); ValueError on an empty counter *)
+Fixpoint str_ltb (a b : str) : bool :=
+  match a, b with
+  | [], [] => false
+  | [], _ :: _ => true
+  | _ :: _, [] => false
+  | x :: a', y :: b' => if (x <? y)%N then true else if (y <? x)%N then false else str_ltb a' b'
+  end.
+
+Definition better (a b : str * Z) : bool :=
+  (snd b <? snd a)%Z || ((snd a =? snd b)%Z && str_ltb (fst a) (fst b)).
+
+Fixpoint best_of (c : counter str) (best : str * Z) : str * Z :=
+  match c with
+  | [] => best
+  | kv :: r => best_of r (if better kv best then kv else best)
+  end.
+
 Definition most_common1 (c : counter str) : result str :=
-  match cmax c None with
-  | Some (k, _) => Ok k
-  | None => Raise IndexError
+  match c with
+  | [] => Raise ValueError
+  | kv :: r => Ok (fst (best_of r kv))
   end.
 
 Definition pc_most_common (pc : pcounter) : result (list str) :=
@@ -116,15 +135,12 @@ Definition ch_x : char := 120%N.
 Definition ch_r : char := 114%N.
 
 (* nparses as computed by segment() *)
+(* len(range(0, niterations, interval)) + 1, defaults 2000 and 1 *)
 Definition wrapper_nparses (args : str) : result Z :=
-  if has_flag ch_n args then
-    do n <- int_opt ch_n args;
-    if has_flag ch_x args then
-      do x <- int_opt ch_x args;
-      if (x =? 0)%Z then Raise ZeroDivisionError
-      else Ok (n / x + 1)%Z            (* int(n / x) + 1 *)
-    else Ok (n + 1)%Z
-  else Ok 2001%Z.
+  do n <- (if has_flag ch_n args then int_opt ch_n args else Ok 2000%Z);
+  do x <- (if has_flag ch_x args then int_opt ch_x args else Ok 1%Z);
+  if (x =? 0)%Z then Raise ValueError          (* range() arg 3 must not be zero *)
+  else Ok ((n + x - 1) / x + 1)%Z.
 
 Definition effective_ignore (args : str) (ignore : Z) : result Z :=
   do np <- wrapper_nparses args;
@@ -186,13 +202,6 @@ Definition segment_from_outputs (nutts : nat) (args : str) (ignore : Z) (runs : 
 
 (* ---------- build_colloc0_grammar: the terminal rules ---------- *)
 
-Fixpoint str_ltb (a b : str) : bool :=
-  match a, b with
-  | [], [] => false
-  | [], _ :: _ => true
-  | _ :: _, [] => false
-  | x :: a', y :: b' => if (x <? y)%N then true else if (y <? x)%N then false else str_ltb a' b'
-  end.
 Fixpoint insert_s (x : str) (l : list str) : list str :=
   match l with
   | [] => [x]
